@@ -1,5 +1,6 @@
 import NfpmModel.Lemmas.Closure
 import NfpmModel.Lemmas.NoClash
+import NfpmModel.Lemmas.Kept
 /-
   C05  Content planning: selection, placement, parent closure, collision rejection.
 
@@ -161,6 +162,99 @@ theorem plan_no_path_clash (O : Oracle) (cfg : PlanCfg) (raw l : List Content)
     exact (List.mergeSort_perm _ _).map _
   intro x ⟨h1, h2⟩
   exact hnc x ⟨hperm.subset h1, hperm.subset h2⟩
+
+/-- **C05 – no accepted request is silently replaced or dropped**: if a list is accepted, then for EVERY relevant
+    directory or file-like entry of it (whatever else the list holds – globs, trees, any order) the plan contains
+    exactly the entry that request produces: its own type, source, owner, mode, times, under its normalised
+    destination. A later request for the same path cannot win quietly – by `plan_no_path_clash` and the unique keys
+    it could only have been rejected. -/
+theorem plan_honours_every_accepted_request (O : Oracle) (cfg : PlanCfg) (raw l : List Content)
+    (h : plan O cfg raw = .ok l) (c : Content) (hc : c ∈ raw)
+    (hrel : isRelevant cfg.packager c = true) (hcls : classify c.type = .dir ∨ classify c.type = .fileLike) :
+    (plannedFor O cfg c).2 ∈ l := by
+  obtain ⟨m, hm, hl, hinv⟩ := plan_ok_inv O cfg raw l h
+  subst hl
+  obtain ⟨i, hi⟩ := mem_zipIdx raw c hc
+  obtain ⟨A, B, hAB⟩ := List.append_of_mem hi
+  rw [hAB] at hm
+  obtain ⟨m1, h1, h2⟩ := planMap_append O cfg A ((i, c) :: B) [] m hm
+  unfold planMap at h2
+  split at h2
+  · exact absurd h2 (by simp)
+  · rename_i m2 hm2
+    have hin : plannedFor O cfg c ∈ m2 := planStep_inserts O cfg m1 m2 i c hrel hcls hm2
+    have hnd1 : m1.keys.Nodup := (kept_planMap O cfg A [] m1 (by simp [CMap.keys]) h1).2
+    have hnd2 : m2.keys.Nodup := (kept_planStep O cfg m1 m2 (i, c) hnd1 hm2).2
+    have hk := (kept_planMap O cfg B m2 m hnd2 h2).1
+    have hty : (plannedFor O cfg c).2.type ≠ T.implicitDir := by
+      unfold plannedFor
+      simp only []
+      rw [withDefaults_type]
+      rcases hcls with hd | hf
+      · rw [classify_dir _ hd]; decide
+      · obtain ⟨hnd, hne⟩ := fileLike_not_dir _ hf
+        rw [if_neg hne]
+        intro e; rw [e] at hnd; exact absurd hnd (by decide)
+    have := hk _ hin hty
+    rw [List.mem_mergeSort]
+    exact List.mem_map.mpr ⟨_, this, rfl⟩
+
+/-- **C05 – collision completeness for explicit requests**: whenever two relevant directory / file-like entries of a
+    list denote the same path (in any spelling: `/a/b`, `a//b/`, `/a/./b` …; file vs file, file vs directory,
+    directory vs directory), the list is rejected – whatever stands before, between or after them. -/
+theorem plan_rejects_two_requests_for_one_path (O : Oracle) (cfg : PlanCfg) (pre mid post : List Content) (c1 c2 : Content)
+    (hr1 : isRelevant cfg.packager c1 = true) (hr2 : isRelevant cfg.packager c2 = true)
+    (hc1 : classify c1.type = .dir ∨ classify c1.type = .fileLike)
+    (hc2 : classify c2.type = .dir ∨ classify c2.type = .fileLike)
+    (hsame : normFile c1.dst = normFile c2.dst) :
+    ∀ l, plan O cfg (pre ++ c1 :: (mid ++ c2 :: post)) ≠ .ok l := by
+  intro l h
+  obtain ⟨m, hm, _, _⟩ := plan_ok_inv O cfg _ l h
+  -- the two entries sit at two positions of the indexed list
+  have hz : ∃ A B C i j, zipIdx (pre ++ c1 :: (mid ++ c2 :: post)) = A ++ (i, c1) :: (B ++ (j, c2) :: C) := by
+    have hsnd : (zipIdx (pre ++ c1 :: (mid ++ c2 :: post))).map Prod.snd = pre ++ c1 :: (mid ++ c2 :: post) := by
+      unfold zipIdx
+      exact List.map_snd_zip (by simp)
+    obtain ⟨A, L1, hL, _, hL1⟩ := List.map_eq_append_iff.mp hsnd
+    obtain ⟨x, L2, hx, hx2, hL2⟩ := List.map_eq_cons_iff.mp hL1
+    obtain ⟨B, L3, hL3, _, hL3'⟩ := List.map_eq_append_iff.mp hL2
+    obtain ⟨y, C, hy, hy2, _⟩ := List.map_eq_cons_iff.mp hL3'
+    refine ⟨A, B, C, x.1, y.1, ?_⟩
+    rw [hL, hx, hL3, hy, ← hx2, ← hy2]
+  obtain ⟨A, B, C, i, j, hz⟩ := hz
+  rw [hz] at hm
+  obtain ⟨m1, h1, h2⟩ := planMap_append O cfg A _ [] m hm
+  unfold planMap at h2
+  split at h2
+  · exact absurd h2 (by simp)
+  · rename_i m2 hm2
+    obtain ⟨m3, h3, h4⟩ := planMap_append O cfg B _ m2 m h2
+    unfold planMap at h4
+    split at h4
+    · rename_i e he
+      -- c2's step failed: but then the whole plan failed – contradiction with `h4 : … = ok`
+      exact absurd h4 (by simp)
+    · rename_i m4 hm4
+      have hnd1 : m1.keys.Nodup := (kept_planMap O cfg A [] m1 (by simp [CMap.keys]) h1).2
+      have hnd2 : m2.keys.Nodup := (kept_planStep O cfg m1 m2 (i, c1) hnd1 hm2).2
+      obtain ⟨hk3, hnd3⟩ := kept_planMap O cfg B m2 m3 hnd2 h3
+      have hin : plannedFor O cfg c1 ∈ m2 := planStep_inserts O cfg m1 m2 i c1 hr1 hc1 hm2
+      have hty : (plannedFor O cfg c1).2.type ≠ T.implicitDir := by
+        unfold plannedFor
+        simp only []
+        rw [withDefaults_type]
+        rcases hc1 with hd | hf
+        · rw [classify_dir _ hd]; decide
+        · obtain ⟨hnd, hne⟩ := fileLike_not_dir _ hf
+          rw [if_neg hne]
+          intro e; rw [e] at hnd; exact absurd hnd (by decide)
+      have hin3 := hk3 _ hin hty
+      refine planStep_rejects_occupied O cfg m3 m4 j c2 hr2 hc2 hnd3 _ hin3 hty ?_ hm4
+      unfold plannedFor
+      simp only []
+      by_cases hd : classify c1.type = .dir
+      · right; simp only [hd, if_true]; exact normDir_of_normFile_eq _ _ hsame
+      · left; simp only [hd, if_false]; exact hsame
 
 /-- **C05 – nothing lies beneath a non-directory** (`_partial`: lists without `tree` entries, as for
     parents-first): every ancestor directory of every planned entry is itself planned as a directory, and the
